@@ -299,12 +299,19 @@ func cmdCheck(eng *Engine, args []string) int {
 	}
 	repeatReplay := ""
 	boundedNote := ""
+	var boundedChecks []string
 	for _, r := range scanResults {
 		nOb++
 		if r.OK && strings.Contains(r.Goal, "[ASSUMED by maporder declaration") {
 			// not proved: an explicit assumption of the contract files
 			nOb--
 			assumed["MAPORDER "+r.Name+": "+r.Goal] = true
+			continue
+		}
+		if r.OK && strings.Contains(r.Name, "/bounded/") {
+			// a bounded stand-in: reported, never counted as proved
+			nOb--
+			boundedChecks = append(boundedChecks, r.Name+": "+r.Goal)
 			continue
 		}
 		if r.OK {
@@ -318,7 +325,9 @@ func cmdCheck(eng *Engine, args []string) int {
 			continue
 		}
 		// the mismatching cases ARE the failing inputs, observed on the real code
-		if strings.Contains(r.Name, "/finite-domain/") {
+		if strings.Contains(r.Name, "/bounded/") {
+			violation(r.Name, fmt.Sprintf("obligation: %s\nkind: bounded check of the real function\ngoal: %s\nREPRODUCED on the real code (go test -overlay harness in package directive):\n%s\n", r.Name, r.Goal, r.Detail), false)
+		} else if strings.Contains(r.Name, "/finite-domain/") {
 			violation(r.Name, fmt.Sprintf("obligation: %s\nkind: finite-domain\ngoal: %s\nREPRODUCED on the real code (go test -overlay harness in package directive):\n%s\n", r.Name, r.Goal, r.Detail), false)
 		} else if id == "C16" {
 			if repeatReplay == "" {
@@ -412,6 +421,9 @@ func cmdCheck(eng *Engine, args []string) int {
 			"integers":                 "mathematical Int with exact wrap-around for + - ++ -- and constant *; shifts/bit operations uninterpreted",
 			"explanation":              expl,
 		}}
+	if len(boundedChecks) > 0 {
+		ev.Coverage["bounded_checks_not_counted_as_proved"] = boundedChecks
+	}
 	if boundedNote != "" {
 		ev.Coverage["bounded_cross_check"] = "BOUNDED, not counted as proved: " + boundedNote
 	}
